@@ -2,6 +2,7 @@ import HdVerif.Proofs.FrameAccess
 import HdVerif.Proofs.Offsets
 import HdVerif.Proofs.OffsetsTie
 import HdVerif.Generated.T11e
+import HdVerif.Proofs.EncapBytes
 /-! # C05  Every way of fetching stored frames returns the same pixels
 
 Property theorems only (helper lemmas live in `Proofs/`).  All statements are about the
@@ -13,7 +14,7 @@ Native (unencapsulated) images.  `PixelData` of a 1-bit image is `pack frames.fl
 (DICOM PS3.5 bit order; tie C checks this against pydicom's `pack_bits`); for >= 8 bits it
 is the concatenation of the frames' bytes. -/
 namespace HdVerif.C05
-open HdVerif HdVerif.Bits HdVerif.Gen HdVerif.FrameAccess HdVerif.FrameAccessLemmas HdVerif.Offsets
+open HdVerif HdVerif.Bits HdVerif.Gen HdVerif.FrameAccess HdVerif.FrameAccessLemmas HdVerif.Offsets HdVerif.EncapBytes
 
 /-- Frame numbers: accepted iff inside the image, result 0-based, 1-based unless `as_index`. -/
 theorem frame_number_accepted_iff (k N : Int) (asIndex : Bool) (r : Int) :
@@ -438,6 +439,154 @@ example : singleSkel.cached [10, 20, 30] 0 (-1) true = .error .index :=
   cached_frame_rejected singleSkel (Or.inl rfl) [10,20,30] 0 (-1) true (by simp)
 example : getBot [0, 12, 18] [[0xFF,0xD8,1,2],[3,4],[0xFF,0xD8,5,6]] 2 = .ok [0, 22] :=
   stored_or_rebuilt_table [[[0xFF,0xD8,1,2],[3,4]],[[0xFF,0xD8,5,6]]] [0,12,18] (by simp [WellFormed]) (Or.inl (by simp [MarkerDelimited, isStart])) (Or.inl (by simp))
+
+
+/-! ## Encapsulated pixel data as BYTES: the lazy reader on the file itself (`Model/EncapBytes.lean`)
+
+The theorems above speak about lists of fragments.  The reader works on bytes: it reads item tags and lengths with
+`fp.read_tag()` / `fp.read_UL()`, parses the Basic Offset Table item or decodes the Extended Offset Table, seeks and walks.
+`Model/EncapBytes.lean` models exactly that over a byte string (step arithmetic = regenerated T11d, table choice / first
+frame position / seek = regenerated T11f), `Proofs/EncapBytes.lean` proves by induction over the items that on the PS3.5
+A.4 encoding of ANY fragment list the byte-level loops are the fragment-level ones.  Tie C: the byte-level model is run
+on the actual file bytes of generated and synthetic images, well-formed and malformed (stream `bytes`). -/
+
+/-- what a well-formed encapsulated stream is: item lengths even, non-zero and below 2^32; at least one frame; frames
+    either marker-delimited (JPEG family, any fragmentation) or one fragment each (RLE, ...) -/
+structure EncStream (frames : List (List Frag)) : Prop where
+  wf : WellFormed frames.flatten
+  small : ∀ f ∈ frames.flatten, f.length < 4294967296
+  shape : MarkerDelimited frames ∨ ∀ fr ∈ frames, ∃ f, fr = [f]
+  nonempty : frames ≠ []
+
+theorem EncStream.frame_data_ne {frames : List (List Frag)} (h : EncStream frames) : ∀ fr ∈ frames, fr.flatten ≠ [] := by
+  intro fr hfr
+  obtain ⟨f, rest, rfl⟩ : ∃ f rest, fr = f :: rest := by
+    rcases h.shape with hm | h1
+    · obtain ⟨f, rest, e, _⟩ := hm fr hfr; exact ⟨f, rest, e⟩
+    · obtain ⟨f, e⟩ := h1 fr hfr; exact ⟨f, [], e⟩
+  have hf : f ∈ frames.flatten := List.mem_flatten.mpr ⟨_, hfr, by simp⟩
+  have hne := (h.wf f hf).2
+  intro h0
+  have h1 : f ++ rest.flatten = [] := by simpa using h0
+  have h2 : f = [] := (List.append_eq_nil_iff.mp h1).1
+  exact hne (by simp [h2])
+
+theorem EncStream.flatten_ne {frames : List (List Frag)} (h : EncStream frames) : frames.flatten ≠ [] := by
+  obtain ⟨fr, frs, rfl⟩ : ∃ fr frs, frames = fr :: frs := by
+    cases frames with
+    | nil => exact absurd rfl h.nonempty
+    | cons a b => exact ⟨a, b, rfl⟩
+  have := h.frame_data_ne fr (by simp)
+  intro h0
+  apply this
+  have : fr ++ frs.flatten = [] := by simpa using h0
+  simp [List.append_eq_nil_iff.mp this]
+
+/-- the table entry of frame `i` is an item boundary of the stream (so the byte-level walk starts on an item tag) -/
+theorem frame_offset_is_boundary (frames : List (List Frag)) (i : Nat) (hi : i < frames.length) :
+    (frameOffsetsFrom 0 frames)[i]? = some (streamSize (frames.take i).flatten) ∧
+    seekFrag frames.flatten 0 (streamSize (frames.take i).flatten) = .ok (frames[i] ++ (frames.drop (i + 1)).flatten) := by
+  constructor
+  · have := frameOffsets_getElem 0 frames i hi
+    simpa using this
+  · have hsplit : frames.flatten = (frames.take i).flatten ++ (frames[i] ++ (frames.drop (i + 1)).flatten) := by
+      conv => lhs; rw [← List.take_append_drop i frames]
+      rw [List.flatten_append, List.drop_eq_getElem_cons hi, List.flatten_cons]
+    have := seekFrag_ok (frames.take i).flatten (frames[i] ++ (frames.drop (i + 1)).flatten) 0
+    rw [← hsplit] at this
+    simpa using this
+
+/-- **Raw frame `i` read from the BYTES of the file, Basic Offset Table present / empty / of the wrong length**: for
+every well-formed stream - any number of frames, any fragmentation of marker-delimited frames, whatever follows the
+sequence delimiter in the file - the lazy reader (table parsed or rebuilt, index guard, seek, item walk) returns exactly
+the concatenated fragments of frame `i`. -/
+theorem lazy_encapsulated_frame_bot (frames : List (List Frag)) (h : EncStream frames) (stored : List Nat) (rest : Bytes)
+    (hs : stored.length ≠ frames.length ∨ stored = frameOffsetsFrom 0 frames)
+    (hn : 4 * stored.length < 4294967296) (hsm : ∀ e ∈ stored, e < 4294967296)
+    (i : Nat) (hi : i < frames.length) :
+    lazyRawEnc (encBot stored ++ (encItems frames.flatten ++ (delimiter ++ rest))) none frames.length i
+      = .ok frames[i].flatten := by
+  have hbot := stored_or_rebuilt_table frames stored h.wf h.shape hs
+  have hg : lazyIndexGuard (i : Int) frames.length = .ok (i : Int) := by
+    rw [lazyIndexGuard_ok_iff]; omega
+  obtain ⟨ht, hseek⟩ := frame_offset_is_boundary frames i hi
+  unfold lazyRawEnc openEncapsulated
+  simp only [bind, Except.bind, getBotB_stream stored frames.flatten h.flatten_ne rest frames.length h.small hn hsm, hbot,
+    tableLengthCheck, frameOffsetsFrom_length, bne_self_eq_false, Bool.false_eq_true, ↓reduceIte, Bool.not_false, hg,
+    Int.toNat_natCast]
+  rw [show (8 + 4 * stored.length) = (encBot stored).length from (encBot_length stored).symm, List.drop_left,
+    readFrameRawB_stream frames.flatten h.small rest _ i _ _ ht hseek]
+  exact read_frame_fragments frames h.frame_data_ne i hi
+
+/-- **... and with an Extended Offset Table** (64-bit entries in the ExtendedOffsetTable attribute, Basic Offset Table
+item present but empty as PS3.5 A.4 demands): the table is taken from the attribute, the first frame is found 8 bytes
+into the element value, and the same fragments come out. -/
+theorem lazy_encapsulated_frame_eot (frames : List (List Frag)) (h : EncStream frames) (rest : Bytes)
+    (hbig : ∀ e ∈ frameOffsetsFrom 0 frames, e < 18446744073709551616)
+    (i : Nat) (hi : i < frames.length) :
+    lazyRawEnc (encBot [] ++ (encItems frames.flatten ++ (delimiter ++ rest)))
+        (some (encEot (frameOffsetsFrom 0 frames))) frames.length i
+      = .ok frames[i].flatten := by
+  have hg : lazyIndexGuard (i : Int) frames.length = .ok (i : Int) := by
+    rw [lazyIndexGuard_ok_iff]; omega
+  obtain ⟨ht, hseek⟩ := frame_offset_is_boundary frames i hi
+  unfold lazyRawEnc openEncapsulated
+  simp only [bind, Except.bind, pure, Except.pure, readEot_enc _ _ hbig, frameOffsetsFrom_length, ↓reduceIte, eotFirstFrameOffset,
+    tableLengthCheck, bne_self_eq_false, Bool.false_eq_true, Bool.not_false, hg, Int.toNat_natCast]
+  have h8 : ((0 : Int) + 20 - 12).toNat = (encBot []).length := by decide
+  rw [h8, List.drop_left, readFrameRawB_stream frames.flatten h.small rest _ i _ _ ht hseek]
+  exact read_frame_fragments frames h.frame_data_ne i hi
+
+/-- frame indices outside the image are refused by the byte-level reader too, whatever the file holds -/
+theorem lazy_encapsulated_index_refused (pd : Bytes) (eot : Option Bytes) (n : Nat) (index : Int)
+    (h : index < 0 ∨ (n : Int) ≤ index) : ∃ e, lazyRawEnc pd eot n index = .error e := by
+  unfold lazyRawEnc
+  cases openEncapsulated pd eot n with
+  | error e => exact ⟨e, rfl⟩
+  | ok r =>
+    simp only [bind, Except.bind, lazy_index_rejected index n h]
+    exact ⟨_, rfl⟩
+
+/-- **Malformed streams are refused when the table has to be built**: a fragment stream that ends without a sequence
+delimiter (truncated file) or continues with bytes that are neither an item nor the delimiter is refused by the table
+construction, for every fragment list and every claimed number of frames. -/
+theorem build_bot_refuses_undelimited (fs : List Frag) (hlen : ∀ f ∈ fs, f.length < 4294967296) (tail : Bytes) (n : Nat)
+    (hbad : readAt tail 0 4 ≠ itemTag ∧ readAt tail 0 4 ≠ delimTag) :
+    ∃ e, buildBotB (encItems fs ++ tail) n = .error e := by
+  unfold buildBotB
+  have hf : fs.length < (encItems fs ++ tail).length + 1 := by
+    have := length_le_streamSize fs
+    simp [encItems_length]; omega
+  obtain ⟨e, he⟩ := botLoopB_refuses_bad_tail fs hlen [] tail _ ([], []) hf hbad
+  simp only [List.nil_append, List.length_nil] at he
+  refine ⟨e, ?_⟩
+  simp only [bind, Except.bind]
+  rw [he]
+
+/-- **What `_build_bot` accepts** (the refusals are the complement): on the bytes of a delimited stream the table is
+built iff every item length is even and non-zero and either exactly `n` fragments start with a JPEG / JPEG 2000 start
+marker (table = their offsets) or, failing that, there are exactly `n` fragments (table = all offsets). -/
+theorem build_bot_accepts_iff (fs : List Frag) (hlen : ∀ f ∈ fs, f.length < 4294967296) (rest : Bytes) (n : Nat) (t : List Nat) :
+    buildBotB (encItems fs ++ (delimiter ++ rest)) n = .ok t ↔
+      WellFormed fs ∧
+        (((markedFrom 0 fs).length = n ∧ t = markedFrom 0 fs) ∨
+         ((markedFrom 0 fs).length ≠ n ∧ fs.length = n ∧ t = offsetsFrom 0 fs)) := by
+  rw [buildBotB_stream fs hlen rest n]
+  exact buildBot_ok_iff fs n t
+
+/-- non-vacuity: two frames, the first in two fragments, JPEG markers, nothing / an empty / a stale per-fragment table
+    stored; trailing bytes after the delimiter -/
+example : EncStream [[[0xFF,0xD8,1,2],[3,4]],[[0xFF,0xD8,5,6]]] :=
+  ⟨by simp [WellFormed], by simp, Or.inl (by simp [MarkerDelimited, isStart]), by simp⟩
+example : lazyRawEnc (encBot [] ++ (encItems [[0xFF,0xD8,1,2],[3,4],[0xFF,0xD8,5,6]] ++ (delimiter ++ [9, 9]))) none 2 0
+    = .ok [0xFF,0xD8,1,2,3,4] :=
+  lazy_encapsulated_frame_bot [[[0xFF,0xD8,1,2],[3,4]],[[0xFF,0xD8,5,6]]]
+    ⟨by simp [WellFormed], by simp, Or.inl (by simp [MarkerDelimited, isStart]), by simp⟩ [] [9, 9] (Or.inl (by simp)) (by simp) (by simp) 0 (by simp)
+example : lazyRawEnc (encBot [] ++ (encItems [[0xFF,0xD8,1,2],[3,4],[0xFF,0xD8,5,6]] ++ (delimiter ++ []))) (some (encEot [0, 22])) 2 1
+    = .ok [0xFF,0xD8,5,6] := by decide +kernel
+example : ∃ e, buildBotB (encItems [[1,2],[3,4]] ++ []) 2 = .error e :=
+  build_bot_refuses_undelimited [[1,2],[3,4]] (by simp) [] 2 (by decide)
+example : lazyRawEnc (encBot [] ++ (encItems [[1,2,3]] ++ delimiter)) none 1 0 = .error .other := by decide +kernel
 
 /-! ### The encapsulated bookkeeping is the source's (tie T, target T11d)
 
